@@ -154,6 +154,46 @@ fn check_list(c: &ListCase, st: &mut Stats) -> Result<(), Failure> {
             }
         }
     }
+    // versions as keys: a HashSet / BTreeSet / HashMap built from the list has exactly one entry per
+    // precedence class (Eq, Hash and Ord agree with each other and with SemVer precedence)
+    {
+        use std::collections::{BTreeSet, HashMap, HashSet};
+        let mut classes: Vec<&MVersion> = vec![];
+        for v in vs {
+            if !classes.iter().any(|c| cmp_semver(c, v) == Ordering::Equal) {
+                classes.push(v);
+            }
+        }
+        let hs: HashSet<Version> = cs.iter().cloned().collect();
+        let bs: BTreeSet<Version> = cs.iter().cloned().collect();
+        let mut hm: HashMap<Version, usize> = HashMap::new();
+        for (i, c) in cs.iter().enumerate() {
+            hm.insert(c.clone(), i);
+        }
+        if hs.len() != classes.len() || bs.len() != classes.len() || hm.len() != classes.len() {
+            return Err(Failure::new(
+                "collections-disagree-with-precedence",
+                format!(
+                    "[{}]: {} precedence classes but HashSet has {}, BTreeSet {}, HashMap {} entries",
+                    vs.iter().map(|v| v.text()).collect::<Vec<_>>().join(", "),
+                    classes.len(),
+                    hs.len(),
+                    bs.len(),
+                    hm.len()
+                ),
+            ));
+        }
+        for c in &cs {
+            if !hs.contains(c) || !bs.contains(c) || !hm.contains_key(c) {
+                return Err(Failure::new("collections-disagree-with-precedence", format!("{} is not found in a set built from a list that contains it", c)));
+            }
+            let cl = c.clone();
+            if cl != *c || digest(&cl) != digest(c) || cl.cmp(c) != Ordering::Equal {
+                return Err(Failure::new("clone-differs", format!("clone of {} is not equal to it", c)));
+            }
+        }
+        st.eval(3);
+    }
     // sorting / max / min
     let mut sorted = cs.clone();
     sorted.sort();
